@@ -1,6 +1,8 @@
 package main
 
 import (
+	"os"
+	"path/filepath"
 	"reflect"
 	"strings"
 
@@ -87,10 +89,24 @@ func execTree(k *Case, txns []Txn) {
 	tree := streamfilter.NewFilterTree()
 	ids := map[internaltypes.FlowI]int{}
 	k.AddErr = nil
+	var decoded map[string]internaltypes.FlowRepI
+	if k.Loader {
+		decoded = loadFlowFiles(k.Flows)
+	}
 	for _, f := range k.Flows {
-		fl := stream_flow.NewFlow(nil, &stream_config.FlowRepresentation{
+		var rep internaltypes.FlowRepI = &stream_config.FlowRepresentation{
 			Name: flowName(f.ID), Filter: mkFilter(f), Type: flowType(f.Kind),
-		}, nil)
+		}
+		if k.Loader {
+			got, ok := decoded[flowName(f.ID)]
+			if !ok || got == nil {
+				// the loader did not deliver this flow: reported as "not loaded"
+				k.AddErr = append(k.AddErr, true)
+				continue
+			}
+			rep = got
+		}
+		fl := stream_flow.NewFlow(nil, rep, nil)
 		ids[fl] = f.ID
 		k.AddErr = append(k.AddErr, safeAdd(tree, fl))
 	}
@@ -136,4 +152,37 @@ func safeAdd(tree internaltypes.FilterTreeI, fl internaltypes.FlowI) (failed boo
 		}
 	}()
 	return tree.AddFlow(fl) != nil
+}
+
+// loadFlowFiles writes the flows as flow files (the YAML of the engine-level
+// sample) into a scratch directory under the harness cwd and reads them back
+// with the production loader streamconfig.GetFlows.  Whatever the loader does
+// not deliver (error, panic) is simply missing from the result.
+func loadFlowFiles(flows []Flow) (out map[string]internaltypes.FlowRepI) {
+	out = map[string]internaltypes.FlowRepI{}
+	defer func() {
+		if r := recover(); r != nil {
+			out = map[string]internaltypes.FlowRepI{}
+		}
+	}()
+	setupEnv()
+	cwd, err := os.Getwd()
+	if err != nil {
+		return out
+	}
+	dir := filepath.Join(cwd, "cfgl")
+	os.RemoveAll(dir)
+	if err := os.MkdirAll(dir, 0o755); err != nil {
+		return out
+	}
+	for _, f := range flows {
+		if err := os.WriteFile(filepath.Join(dir, flowName(f.ID)+".yaml"), []byte(flowYAML(f)), 0o644); err != nil {
+			return out
+		}
+	}
+	got, _ := stream_config.GetFlows(dir) // partial results are kept: a refused file = a flow not loaded
+	if got != nil {
+		out = got
+	}
+	return out
 }
